@@ -286,6 +286,13 @@ theorem client_level_never_applied (client drawn : Int) (hd : 0 ≤ drawn ∧ dr
 log: level -7 is proposed as it came and `setLevel` panics in the apply loop of every replica -/
 theorem kept_client_level_poisons : setLevelOutcome (proposedLevel false (-7) 3) = .poison := by decide
 
+/-- **no request wedges a handler or the apply loop in the greedy descent**: the walk moves only to a
+strictly closer neighbour, so the running minimum strictly decreases over finitely many vertices (the
+model's `greedyClosest` takes the number of vertices as fuel for that reason) — also for queries whose
+distances are all NaN, for which the strict comparison is never true (regenerated; seeded change
+C12-E adds "or the minimum is NaN") -/
+theorem greedy_descent_strictly_improves : Generated.greedyDescentStrictlyImproves = true := by decide
+
 /-! ## non-vacuity -/
 
 example : (create 3 ⟨4, 2, 2, 1⟩).1 = .ok := by decide
